@@ -422,38 +422,54 @@ def run_sb(case, drv):
 
 def gen_prox(rng):
     nd = rng.choice([1, 2, 3])
-    return {"kind": "prox", "nd": nd, "dtype": rng.choice(["f64", "f32"]), "seed": rng.randrange(10**6),
-            "n": rng.randint(1, 25), "ops": [[rng.uniform(-2, 2) for _ in range(nd)] for _ in range(rng.randint(4, 20))]}
+    lc = rng.random() < 0.6
+    steps = []
+    for _ in range(rng.randint(1, 6)):
+        n = rng.choice([1, 1, 2, 3, 6])
+        steps.append({"rows": [[[rng.choice([-1, 0, 0.5, 1]) if rng.random() < 0.3 else round(rng.uniform(-2, 2), 3)
+                                 for _ in range(nd)], rng.randint(-5, 5)] for _ in range(n)],
+                      "qs": [[rng.uniform(-2, 2) for _ in range(nd)] for _ in range(rng.randint(2, 8))]})
+    return {"kind": "prox", "nd": nd, "dtype": rng.choice(["f64", "f32"]), "lc": lc,
+            "nu": rng.choice([0.0, 0.5, 1.0, 2.0]), "k": rng.choice([1, 2, 3]), "ops": steps}
 
 
 def run_prox(case, drv):
-    import random
+    """histories of adds (with local competition: replacements move stored measures) with index_of queries after
+    every add: the result must be a *currently* stored entry at minimum distance"""
     from ribs.archives import ProximityArchive
     dt = case["dtype"]
-    r = random.Random(case["seed"])
-    a = ProximityArchive(solution_dim=1, measure_dim=case["nd"], k_neighbors=1, novelty_threshold=0.0, dtype=NP[dt])
-    ms = np.array([[r.choice([-1, 0, 0.5, 1]) if r.random() < 0.3 else r.uniform(-1, 1) for _ in range(case["nd"])]
-                   for _ in range(case["n"])], dtype=NP[dt])
-    a.add(np.arange(len(ms), dtype=NP[dt]).reshape(-1, 1), np.zeros(len(ms)), ms)
-    d = a.data()
-    stored = {int(i): [fx(x) for x in m] for i, m in zip(d["index"], d["measures"])}
-    arr = np.array(case["ops"], dtype=NP[dt])
-    idx = [int(i) for i in a.index_of(arr)]
-    drv.ask("cvtset " + ";".join(ql(stored[i]) for i in sorted(stored)))
-    keys = sorted(stored)
+    a = ProximityArchive(solution_dim=1, measure_dim=case["nd"], k_neighbors=case["k"], novelty_threshold=case["nu"],
+                         local_competition=case["lc"], dtype=NP[dt], initial_capacity=2)
     tol = 16 * U[dt] * (case["nd"] + 2)
-    for p, i in zip(arr, idx):
-        if i not in stored:
-            return Failure("oracle", f"[C03] ProximityArchive.index_of returned {i}, not a stored entry")
-        d2 = {k: sum((c - fx(x))**2 for c, x in zip(stored[k], p)) for k in stored}
-        dmin = min(d2.values())
-        if d2[i] > dmin * (1 + tol) + F(1, 10**290):
-            return Failure("oracle", f"[C03] ProximityArchive: {p.tolist()} mapped to entry {i} at squared distance "
-                           f"{float(d2[i])!r}, nearest is at {float(dmin)!r}")
-        mline = drv.ask(f"cvt {ql(fx(x) for x in p)} {q(tol)} {q(F(1, 10**290))}").split()
-        adm = {keys[int(x)] for x in mline[1].split(",")}
-        if i not in adm:
-            return Failure("corr", f"[C03] proximity index impl={i} model admissible={sorted(adm)}")
+    t = 0
+    for step in case["ops"]:
+        ms = np.array([r[0] for r in step["rows"]], dtype=NP[dt]).reshape(len(step["rows"]), case["nd"])
+        objs = np.array([float(r[1]) for r in step["rows"]])
+        a.add(np.arange(t, t + len(ms), dtype=NP[dt]).reshape(-1, 1), objs, ms)
+        t += len(ms)
+        d = a.data()
+        stored = {int(i): [fx(x) for x in m] for i, m in zip(d["index"], d["measures"])}
+        if not stored:
+            continue
+        keys = sorted(stored)
+        # queries: the given points plus every stored entry's own measures
+        arr = np.array(step["qs"] + [[float(x) for x in stored[k]] for k in keys], dtype=NP[dt])
+        idx = [int(i) for i in a.index_of(arr)]
+        if [int(a.index_of_single(p)) for p in arr[:2]] != idx[:2]:
+            return Failure("oracle", "[C03] ProximityArchive.index_of_single disagrees with index_of")
+        drv.ask("cvtset " + ";".join(ql(stored[i]) for i in keys))
+        for p, i in zip(arr, idx):
+            if i not in stored:
+                return Failure("oracle", f"[C03] ProximityArchive.index_of returned {i}, not a stored entry")
+            d2 = {k: sum((c - fx(x))**2 for c, x in zip(stored[k], p)) for k in stored}
+            dmin = min(d2.values())
+            if d2[i] > dmin * (1 + tol) + F(1, 10**290):
+                return Failure("oracle", f"[C03] ProximityArchive (local_competition={case['lc']}): {p.tolist()} mapped to "
+                               f"entry {i} at squared distance {float(d2[i])!r}, but a stored entry is at {float(dmin)!r}")
+            mline = drv.ask(f"cvt {ql(fx(x) for x in p)} {q(tol)} {q(F(1, 10**290))}").split()
+            adm = {keys[int(x)] for x in mline[1].split(",")}
+            if i not in adm:
+                return Failure("corr", f"[C03] proximity index impl={i} model admissible={sorted(adm)}")
     return None
 
 
